@@ -9,11 +9,11 @@ from verif.common import Ctx, Ob, Outcome, Witness
 PROPERTY = "C02"
 LEVEL = "exploration"
 LEVEL_TEXT = "bounded exhaustive exploration against an independent content model (the carrying premises are parser behaviour); proved side lemmas: value typing of literals is a function of spelling (R), escape on write mirrors unescape on read (R), the parser builds sibling lists by append only (F)"
-LEVEL_NOTE = "the parser is outside deductive reach; content equality is explored over enumerated model documents only"
-TECHNIQUE = "bounded model-document differential (B) with proved lexical side obligations (R) and an append-only frame obligation on the parser (F)"
+LEVEL_NOTE = "the reading side is now under contract for scalars: Parser.parse_value / parse_list / parse_section / parse_meta_block / parse_document are executed symbolically on concrete token spines with symbolic token values (contracts/parse_scalar.py), so 'value in the tree = value in the token' holds for every value in assignment, list-item, inline-map-value, META and block position; token spines beyond those (multi-word values, expressions, annotations, comments, section markers, deeper structures) remain bounded"
+TECHNIQUE = "pre/postconditions on the real parser functions (whole-function symbolic execution over concrete token spines, symbolic values; z3) + regular-language obligations on the real lexer/emitter tables (R) + frame obligations (F); bounded model-document differential (B) for everything outside those spines"
 EXPLANATION = "C02: every model document, canonical and lenient renderings, read by both readers and compared field by field with the model; canonical text re-read and compared again."
-ASSUMPTIONS = ["content model and renderers (verif.bounded.model) are the independent statement of 'what was written'"]
-TRUSTED_BASE = ["verif.bounded.model", "verif.reglang", "verif.frames"]
+ASSUMPTIONS = ["a NUMBER token carries an int or a float (what int()/float() return in the lexer; R literal obligations)", "nesting depth on entry below the hard limit", "content model and renderers (verif.bounded.model) are the independent statement of 'what was written'"]
+TRUSTED_BASE = ["verif.bounded.model", "verif.reglang", "verif.frames", "verif.pyvc", "z3"]
 
 PARSER = "octave_mcp.core.parser"
 
